@@ -236,4 +236,6 @@ def scheduled_task(t):
   gate(t, k).wait(20)
   if OUTCOMES.get((t, k), 'ok') == 'timeout':
     raise fakecourier.DeadlineExceeded()
+  if OUTCOMES.get((t, k), 'ok') == 'error':
+    raise RuntimeError(f'application error in task {t}')      # non-retriable
   return 100 + t
